@@ -37,9 +37,7 @@ func vC25_terminated_roundtrip() {
 	if vCase("withPath") == 1 {
 		name := vNondetStringN("name", 2)
 		vAssume(vC25_alnum(name[0]) && vC25_alnum(name[1]))
-		port := vNondetInt("port")
-		vAssume(port >= 1000 && port <= 9999)
-		p = newPath(address.New(name, "sys", "h1", port))
+		p = newPath(address.New(name, "sys", "h1", 9000)) // the text form of addresses is C26's subject: only the name is symbolic here
 	}
 	m := &Terminated{actorPath: p, terminatedAt: time.Unix(0, ts).UTC()}
 	s := &terminatedSerializer{}
